@@ -310,12 +310,21 @@ def setup_command_line_parsers(progname, fhelpers, thelpers):
                          dest='output_format',
                          action='store_const',
                          const='latex')
+    class _SeedAction(argparse.Action):
+        """Seed the random generator as soon as the option is parsed
+
+        Graph arguments are built while the rest of the command line
+        is parsed, and they may be random."""
+        def __call__(self, parser, args, values, option_string=None):
+            setattr(args, self.dest, values)
+            random.seed(values)
+
     parser.add_argument('--seed',
                         '-S',
                         metavar="<seed>",
                         default=None,
                         type=int,
-                        action='store')
+                        action=_SeedAction)
     g = parser.add_mutually_exclusive_group()
     g.add_argument('--verbose',
                    '-v',
@@ -503,7 +512,7 @@ def cli(argv=None, mode='output'):
                 )
 
         # Generate the formula and apply transformations
-        if hasattr(args, 'seed') and args.seed:
+        if hasattr(args, 'seed') and args.seed is not None:
             random.seed(args.seed)
 
         try:
@@ -521,7 +530,7 @@ def cli(argv=None, mode='output'):
             except RuntimeError as e:
                 raise InternalBug(e) from e
 
-        if hasattr(args, 'seed') and args.seed:
+        if hasattr(args, 'seed') and args.seed is not None:
             cnf.header['random seed'] = args.seed
         cnf.header['command line'] = "cnfgen " + " ".join(argv[1:])
 
